@@ -91,6 +91,9 @@ type cnode struct {
 }
 
 type cworld struct {
+	snapshots   bool // snapshot_interval / snapshot_threshold low: peers snapshot within a second of any new entry
+	rotate      int
+	slash       bool
 	dir         string
 	slowCatchUp bool // one entry per AppendEntries: a joiner needs many round trips to catch up
 	retries     int
@@ -101,7 +104,7 @@ type cworld struct {
 const rpcProto = "/verif/c17/rpc"
 
 func newCWorld(dir string, retries int) (*cworld, error) {
-	w := &cworld{dir: dir, retries: retries, byID: map[peer.ID]int{}}
+	w := &cworld{dir: dir, retries: retries, rotate: 2, byID: map[peer.ID]int{}}
 	for i := 0; i < universe; i++ {
 		priv, _, err := crypto.GenerateKeyPair(crypto.Ed25519, 0)
 		if err != nil {
@@ -121,17 +124,24 @@ func (w *cworld) raftCfg(n *cnode, init []int) *raft.Config {
 	cfg := &raft.Config{}
 	cfg.Default()
 	cfg.DataFolder = n.folder
+	if w.slash {
+		cfg.DataFolder = n.folder + "/"
+	}
 	cfg.WaitForLeaderTimeout = 20 * time.Second
 	cfg.NetworkTimeout = 10 * time.Second
 	cfg.CommitRetries = w.retries
 	cfg.CommitRetryDelay = 50 * time.Millisecond
-	cfg.BackupsRotate = 2
+	cfg.BackupsRotate = w.rotate
 	cfg.RaftConfig.HeartbeatTimeout = 700 * time.Millisecond
 	cfg.RaftConfig.ElectionTimeout = 1000 * time.Millisecond
 	cfg.RaftConfig.LeaderLeaseTimeout = 500 * time.Millisecond
 	cfg.RaftConfig.CommitTimeout = 50 * time.Millisecond
 	if w.slowCatchUp {
 		cfg.RaftConfig.MaxAppendEntries = 1
+	}
+	if w.snapshots {
+		cfg.RaftConfig.SnapshotInterval = 300 * time.Millisecond
+		cfg.RaftConfig.SnapshotThreshold = 1
 	}
 	for _, i := range init {
 		if i != n.idx {
@@ -400,11 +410,66 @@ func (w *cworld) observe(l *cnode) (string, bool) {
 type cscript struct {
 	retries int
 	init    []int
+	rotate  int      // backups_rotate of every peer (0 = default 2)
+	slash   bool     // data_folder is configured with a trailing slash
 	ops     []string // without outcomes
 }
 
+func (s cscript) rot() int {
+	if s.rotate <= 0 {
+		return 2
+	}
+	return s.rotate
+}
+
+func (s cscript) tail() string {
+	ts := 0
+	if s.slash {
+		ts = 1
+	}
+	return fmt.Sprintf("br=%d ts=%d", s.rot(), ts)
+}
+
 func (s cscript) head() string {
-	return fmt.Sprintf("C17 c r=%d rp=1 init=%s", s.retries, common.Ints(s.init))
+	return fmt.Sprintf("C17 c r=%d rp=1 init=%s %s", s.retries, common.Ints(s.init), s.tail())
+}
+
+// dataGone: the Raft data folder holds no database and no snapshot any more.
+func dataGone(folder string) bool {
+	if _, err := os.Stat(filepath.Join(folder, "raft.db")); err == nil {
+		return false
+	}
+	if l, err := os.ReadDir(filepath.Join(folder, "snapshots")); err == nil && len(l) > 0 {
+		return false
+	}
+	return true
+}
+
+// waitSnapshot waits until the data folder holds a finished snapshot.
+func waitSnapshot(folder string, max time.Duration) bool {
+	deadline := time.Now().Add(max)
+	for time.Now().Before(deadline) {
+		if l, err := os.ReadDir(filepath.Join(folder, "snapshots")); err == nil {
+			for _, e := range l {
+				if !strings.HasSuffix(e.Name(), ".tmp") {
+					return true
+				}
+			}
+		}
+		time.Sleep(100 * time.Millisecond)
+	}
+	return false
+}
+
+// countBackups counts the rotated copies <folder>.old.<i> next to the data folder.
+func countBackups(folder string) int {
+	n := 0
+	for i := 0; i < 12; i++ {
+		if _, err := os.Stat(fmt.Sprintf("%s.old.%d", folder, i)); err == nil {
+			n++
+		}
+	}
+	return n
 }
 
 const opTimeout = 90 * time.Second
@@ -423,9 +488,13 @@ func runConsScript(out *common.Out, mu *sync.Mutex, scratch string, tag string, 
 	}
 	defer w.close()
 	os.RemoveAll(w.dir)
+	w.rotate, w.slash = s.rot(), s.slash
 	for _, op := range s.ops {
 		if strings.HasPrefix(op, "bulk@") {
 			w.slowCatchUp = true
+		}
+		if strings.HasPrefix(op, "snap@") {
+			w.snapshots = true
 		}
 	}
 	for _, i := range s.init {
@@ -727,6 +796,16 @@ func (w *cworld) exec(op string) (string, bool) {
 		}
 		w.refreshAddrs()
 		return "restart@" + f[1], true
+	case "snap":
+		// marker (ignored by the driver): wait until peer j holds a snapshot in its data folder
+		n := w.node(f[1])
+		if n == nil || !n.up {
+			return "", true
+		}
+		if !waitSnapshot(n.folder, 20*time.Second) {
+			return "", false
+		}
+		return "snap@" + f[1], true
 	case "clean":
 		n := w.node(f[1])
 		if n == nil || n.cc == nil {
@@ -740,13 +819,13 @@ func (w *cworld) exec(op string) (string, bool) {
 			return "", false
 		}
 		gone := "1"
-		if _, e := os.Stat(filepath.Join(n.folder, "raft.db")); e == nil {
+		if !dataGone(n.folder) {
 			gone = "0"
 		}
 		if err != nil {
 			gone = "e"
 		}
-		return "clean@" + f[1] + "@" + gone, true
+		return fmt.Sprintf("clean@%s@%s@%d", f[1], gone, countBackups(n.folder)), true
 	}
 	return "", true
 }
@@ -785,6 +864,26 @@ func genConsScript(r *common.Rng, tier string) cscript {
 		s.init = []int{0, 1, 2}
 	default:
 		s.init = []int{0}
+	}
+	s.rotate = 1 + r.Intn(3)
+	if r.Chance(1, 8) {
+		// the same peer, on the same data folder, is added and removed more often than backups_rotate:
+		// every removal must leave its folder empty (snapshots are forced so that Clean goes through the backup rotation)
+		s.init = []int{0}
+		s.rotate = 1 + r.Intn(2)
+		s.slash = r.Chance(1, 3)
+		rounds := s.rotate + 2
+		for k := 0; k < rounds; k++ {
+			s.ops = append(s.ops, "start@1", "add@0@1", "ready@1",
+				fmt.Sprintf("pin@0@%s", fmt.Sprintf(pinShapes[r.Intn(len(pinShapes))], r.Intn(5))), "snap@1")
+			if r.Chance(1, 3) {
+				s.ops = append(s.ops, "rm@1@1")
+			} else {
+				s.ops = append(s.ops, "rm@0@1")
+			}
+			s.ops = append(s.ops, "clean@1")
+		}
+		return s
 	}
 	if r.Chance(1, 10) {
 		// a joiner that has a long log to catch up with, one entry per round trip
@@ -930,6 +1029,17 @@ func parseScript(f []string) (cscript, string, bool) {
 	for _, t := range f[4:] {
 		if t == "=>" {
 			break
+		}
+		if strings.HasPrefix(t, "br=") {
+			s.rotate = atoi(t[3:])
+			if s.rotate < 1 || s.rotate > 6 {
+				return s, "", false
+			}
+			continue
+		}
+		if strings.HasPrefix(t, "ts=") {
+			s.slash = t == "ts=1"
+			continue
 		}
 		s.ops = append(s.ops, t)
 	}
